@@ -370,8 +370,23 @@ def _transition_fingerprint(trans: Any) -> Tuple[Any, ...]:
         trans.event,
         _resolved_target(trans),
         tuple(a.type for a in trans.actions),
-        trans.guard,
+        _guard_fingerprint(getattr(trans, "guard_def", None)),
         bool(trans.reenter),
+    )
+
+
+def _guard_fingerprint(guard: Any) -> Any:
+    """Reduce a guard to its type, params and (recursively) its operands.
+
+    Comparing the type name alone called a parameterised guard that lost its
+    params, or an ``and`` that lost its operands, "the same guard".
+    """
+    if guard is None:
+        return None
+    return (
+        guard.type,
+        repr(guard.params) if guard.params else None,
+        tuple(_guard_fingerprint(c) for c in guard.children),
     )
 
 
